@@ -3,7 +3,7 @@ from props import matcher_common as mc
 
 NAMESPACE = 'C19'
 LEAN_TARGETS = ['MxV.Props.C19', 'MxV.Props.Slotted']
-THEOREMS = ['errors_documented_tame', 'errors_documented_flat_fwd', 'Slotted.C19_slotted']
+THEOREMS = ['errors_documented_tame', 'errors_documented_flat_fwd', 'Slotted.C19_slotted', 'attr_errors_documented', 'attr_remove_silent']
 TRUSTED_BASE = ['Lean 4.33.0 kernel', 'axioms: propext, Quot.sound, Classical.choice only (audited per theorem)',
                 'translator extract/*.py (templates regenerated every run)',
                 'correspondence harness (real library vs Mfull on all 94 types, vs Msimple on the 68 Tame types)']
